@@ -57,10 +57,19 @@ def vsexp(t, d, cache, form="py"):
         return "(dict " + " ".join(parts) + ")", arg
     if k == "array":
         _, shape, data = d
-        if form == "nd" and t[1][0] == "scalar":
+        if form in ("nd", "ndown", "ndf") and t[1][0] == "scalar":
             dt = T.scalars()[t[1][1]]._dtype
             arr = np.array(data, dtype=dt).reshape(shape)
             flat = [int.from_bytes(x.tobytes(), "little") for x in arr.reshape(-1)]
+            # the same logical array in another MEMORY layout: C order, Fortran order, or laid out exactly like the xobject array
+            # itself (its own axis order) - what `other.to_nparray()` or np.asfortranarray(...) hand in
+            lay = (sum(flat) + len(shape)) % 3 if len(shape) > 1 and arr.size else 0
+            lay = {"ndown": 2, "ndf": 1}.get(form, lay)
+            if lay == 1:
+                arr = np.asfortranarray(arr)
+            elif lay == 2:
+                order = [int(a) for a in t[3]]
+                arr = np.ascontiguousarray(arr.transpose(order)).transpose(np.argsort(order))
             return "(nd (" + " ".join(map(str, shape)) + ") " + " ".join(f"(bits {b})" for b in flat) + ")", arr
 
         def conv(x, dims):
@@ -921,6 +930,10 @@ def run_corpus(R):
         # O-3: non-C axis order from an ndarray
         (("array", ("scalar", 3), [3, 3, 1], [1, 0, 2]), ("ARR", [3, 3, 1], [[[1], [2], [3]], [[4], [5], [6]], [[7], [8], [9]]]), "nd"),
         (("array", ("scalar", 0), [None, 2], [1, 0]), ("ARR", [3, 2], [[1.0, 2.0], [3.0, 4.0], [5.0, 6.0]]), "nd"),
+        # a NumPy value laid out exactly like the array itself (its own non-C axis order), and in Fortran order
+        (("array", ("scalar", 0), [3, 4], [1, 0]), ("ARR", [3, 4], [[1.0, 2.0, 3.0, 4.0], [5.0, 6.0, 7.0, 8.0], [9.0, 10.0, 11.0, 12.0]]), "ndown"),
+        (("array", ("scalar", 2), [None, 2, 2], [2, 0, 1]), ("ARR", [2, 2, 2], [[[1, 2], [3, 4]], [[5, 6], [7, 8]]]), "ndown"),
+        (("array", ("scalar", 2), [2, None], [0, 1]), ("ARR", [2, 3], [[1, 2, 3], [4, 5, 6]]), "ndf"),
         # O-5 / O-25: nested dynamic items from nested lists
         (("array", ("array", ("string",), [1, 1], [0, 1]), [3, None], [1, 0]),
          ("ARR", [3, 1], [[("ARR", [1, 1], [["abcdefghijklmno"]])], [("ARR", [1, 1], [["q" * 33]])], [("ARR", [1, 1], [["abcdefg"]])]]), "py"),
